@@ -177,5 +177,13 @@ theorem a_redelegation_settles_both_validators_first (del : Acct) (src dst : AVa
     ∃ cs1 cs2, w.oracle = (src.id, cs1) :: (dst.id, cs2) :: w'.oracle :=
   redelegate_settles del src dst dn amt w w' h a hga hst hds hdd
 
+
+/-- stake-neutral, with no hypothesis on the state: in every state of every history from the empty module store (operations,
+    failed transactions, environment steps, restarts) a successful claim changes no share quantity (`KD` follows from
+    `Stores`, which every keeper function keeps) -/
+theorem claim_is_stake_neutral_everywhere (w0 w w' : World) (hr : ReachG (clearModuleStore w0) w)
+    (del : Acct) (v : ValId) (d : Option Denom) (h : step (.claim del v d) w = (.ok (), w')) : SV w w' :=
+  claim_is_stake_neutral_in_every_history w0 w w' hr del v d h
+
 end C13
 end Alliance
